@@ -339,11 +339,13 @@ def main():
         for (r, fail) in plan.cross_cfg(results):
             r["ofail"].append(fail)
     extras = plan.extra_obligations(tier, wd) if hasattr(plan, "extra_obligations") else []
-    for (name, ok, detail) in extras:
+    for ob in extras:
+        name, ok, detail = ob[0], ob[1], ob[2]
+        no_input = ob[3] if len(ob) > 3 else False
         if not ok:
-            path = write_replay(pid, "build", {"property": pid, "kind": "build obligation failed on /repo's working tree",
-                                               "what": name, "log": detail})
-            violations.append((path, False))
+            path = write_replay(pid, "obligation", {"property": pid, "kind": "obligation failed on /repo's working tree",
+                                                    "what": name, "detail": detail})
+            violations.append((path, no_input))
     total_evals = sum(r.get("stats", {}).get("evaluations", 0) for r in results)
     total_nt = sum(r.get("stats", {}).get("distinct_nontrivial", 0) for r in results)
     corr_ok = True
@@ -412,6 +414,7 @@ def main():
             "explanation": EXPLAIN.get(pid, "machine-checked theorems about the Gallina model (coq/Properties/%s.v) plus the checked "
                                             "correspondence between the extracted model and /repo's working tree" % pid),
             "extra_obligations": [{"what": e[0], "ok": e[1]} for e in extras],
+            "translated_arithmetic": getattr(plan, "arith", None),
             "checker_cmd": "make -C /verif/coq (coqc 8.16.1, full .vo build) && coqc Properties/%s.v with Print Assumptions; then ./check %s %s" % (pid, pid, tier),
             "trusted_base": ["Coq 8.16.1 kernel (no native_compute)", "extraction ExtrOcamlBasic + OCaml 4.13.1 driver",
                              "Rust harness + hooks (--cfg circular_buffer_verif)", "case generators tools/cases.py, tools/props.py",
